@@ -22,10 +22,15 @@ ShellStep(e) ==
   /\ ((e.r = "ok") <=> ShapeOK(e.c)) = TRUE
   /\ ((e.r = "ok") => IF KindsLegal(e.c) THEN e.nbasis = <<NBasis(e.c.ang, e.c.kinds)>> ELSE e.nbasis = <<>>) = TRUE
   /\ UNCHANGED vars
+\* assignment to one attribute of an existing, consistent shell: e.c is the shape tuple that would result
+ShellSetStep(e) ==
+  /\ ((e.r = "ok") <=> ShapeOK(e.c)) = TRUE
+  /\ UNCHANGED vars
 Step ==
   /\ l <= Len(Traces[tid])
   /\ LET e == Traces[tid][l] IN
        IF e.op = "Shell" THEN ShellStep(e)
+       ELSE IF e.op = "ShellSet" THEN ShellSetStep(e)
        ELSE (l = 1) = (e.op = "New") /\ MoStep(e)
   /\ l' = l + 1 /\ UNCHANGED tid
   /\ TLCSet(tid, IF TLCGet(tid) < l THEN l ELSE TLCGet(tid))
